@@ -18,7 +18,9 @@ Mirrors the **current** code (after the fixes 97e2cea: backspace writes a NUL; 8
   times, then exit or fail);
 * `fault` is set by anything that would leave the scratch union (a string without terminator inside
   it, a write beyond it, a NULL table entry dereferenced, `assert(0)`): C15 proves it stays `false`;
-* `wlog` is a ghost log of the offsets of all single-byte writes (not the `memset` of `do_prompt`).
+* `wlog` is a ghost log of the offsets of all single-byte writes (not the `memset` of `do_prompt`),
+  `lines` a ghost log of the texts handed to `do_tokenize`; `stuck` is set when a fuel-bounded loop
+  of the model runs out of fuel (C15 proves the fuel suffices).
 -/
 namespace Librfn.Model.Console
 open Librfn.Gen.Layout
@@ -77,14 +79,16 @@ structure St where
   out : List Byte                 -- everything written to `c->out`
   caps : List Cap
   fault : Bool
-  wlog : List Nat
+  stuck : Bool                    -- a bounded loop of the model ran out of fuel (never a silent truncation)
+  wlog : List Nat                 -- ghost: offsets of all single-byte stores into the scratch union
+  lines : List (List Byte)        -- ghost: the text of every line handed to do_tokenize
   deriving Repr
 
 /-- `console_init` (memset 0, ring initialised, fibre made runnable) -/
 def init : St :=
   { ring := [], mem := List.replicate scratchSize 0, bufp := 0, argc := 0,
     argv := List.replicate argvLen none, cmd := none, fpt := 0, pt := 0, evali := 0, runnable := true,
-    hlock := false, hidx := 0, out := [], caps := [], fault := false, wlog := [] }
+    hlock := false, hidx := 0, out := [], caps := [], fault := false, stuck := false, wlog := [], lines := [] }
 
 def St.print (s : St) (t : String) : St := { s with out := s.out ++ bytes t }
 def St.printBytes (s : St) (t : List Byte) : St := { s with out := s.out ++ t }
@@ -160,7 +164,8 @@ def doTokenize (s : St) : St :=
   | none => { s with fault := true }
   | some len =>
     let t := tokenizeMem s.mem s.argv len
-    { s with mem := t.mem, argc := t.argc, argv := padArgv t.argv t.argc len, wlog := t.wr ++ s.wlog }
+    { s with mem := t.mem, argc := t.argc, argv := padArgv t.argv t.argc len, wlog := t.wr ++ s.wlog,
+             lines := s.lines ++ [s.mem.take len] }
 
 /-! ## find_command, console_register -/
 
@@ -236,43 +241,49 @@ def echoArgs (s : St) : Nat → Nat → List Byte
       (32 :: (match s.argv.getD i none with | some o => cstr s.mem o | none => bytes "(null)")) ++ echoArgs s n (i + 1)
     else []
 
+/-- one invocation of a command function, by what the function is -/
+def runBody (tab : Table) (s : St) : Body → St × PtState
+  | .echo => ((s.printBytes (echoArgs s argvLen 1)).print "\n", .exited)
+  | .unknown =>
+    (match s.argv.getD 0 none with
+     | some o => if s.mem.getD o 0 ≠ 0 then s.print "Unknown/bad command\n" else s
+     | none => { s with fault := true }, .exited)
+  | .help =>
+    if s.pt = 0 then ({ s.print "Available commands:\n" with pt := 1 }, .yielded)
+    else if s.pt = 1 ∨ s.pt = 2 then
+      if s.hlock = true then ({ s with pt := 2 }, .waiting)
+      else
+        match tab.getD 0 none with
+        | none => ({ s with fault := true }, .exited)
+        | some c0 =>
+          match c0.name with
+          | some n => ({ (s.printBytes (bytes "  " ++ n ++ [10])) with pt := 3, hlock := true, hidx := 0 }, .yielded)
+          | none => ({ s with pt := 2, hlock := false, hidx := 0 }, .exited)
+    else if s.pt = 3 then
+      match tab.getD (s.hidx + 1) none with
+      | none => ({ s with fault := true }, .exited)
+      | some c1 =>
+        match c1.name with
+        | some n => ({ (s.printBytes (bytes "  " ++ n ++ [10])) with hidx := s.hidx + 1 }, .yielded)
+        | none => ({ s with hlock := false, hidx := s.hidx + 1 }, .exited)
+    else ({ s with fault := true }, .exited)
+  | .script id k fails dirty =>
+    if s.pt = 0 then
+      if s.pt < k then
+        ({ s with caps := s.caps ++ [⟨id, s.argc, s.argv, s.mem.take bufSize⟩],
+                  mem := if dirty = true then List.replicate scratchSize 170 else s.mem, pt := s.pt + 1 }, .yielded)
+      else
+        ({ s with caps := s.caps ++ [⟨id, s.argc, s.argv, s.mem.take bufSize⟩],
+                  mem := if dirty = true then List.replicate scratchSize 170 else s.mem },
+         if fails = true then .failed else .exited)
+    else if s.pt < k then ({ s with pt := s.pt + 1 }, .yielded)
+    else (s, if fails = true then .failed else .exited)
+
 /-- one invocation `c->cmd->fn(c)` -/
 def runCmd (tab : Table) (s : St) : St × PtState :=
   match s.cmd with
   | none => ({ s with fault := true }, .exited)
-  | some c =>
-    match c.body with
-    | .echo => ((s.printBytes (echoArgs s argvLen 1)).print "\n", .exited)
-    | .unknown =>
-      (match s.argv.getD 0 none with
-       | some o => if s.mem.getD o 0 ≠ 0 then s.print "Unknown/bad command\n" else s
-       | none => { s with fault := true }, .exited)
-    | .help =>
-      if s.pt = 0 then ({ s.print "Available commands:\n" with pt := 1 }, .yielded)
-      else if s.pt = 1 ∨ s.pt = 2 then
-        if s.hlock then ({ s with pt := 2 }, .waiting)
-        else
-          match tab.getD 0 none with
-          | none => ({ s with fault := true }, .exited)
-          | some c0 =>
-            match c0.name with
-            | some n => ({ (s.printBytes (bytes "  " ++ n ++ [10])) with pt := 3, hlock := true, hidx := 0 }, .yielded)
-            | none => ({ s with pt := 2, hlock := false, hidx := 0 }, .exited)
-      else if s.pt = 3 then
-        match tab.getD (s.hidx + 1) none with
-        | none => ({ s with fault := true }, .exited)
-        | some c1 =>
-          match c1.name with
-          | some n => ({ (s.printBytes (bytes "  " ++ n ++ [10])) with hidx := s.hidx + 1 }, .yielded)
-          | none => ({ s with hlock := false, hidx := s.hidx + 1 }, .exited)
-      else ({ s with fault := true }, .exited)
-    | .script id k fails dirty =>
-      let s1 := if s.pt = 0 then
-          let s0 := { s with caps := s.caps ++ [⟨id, s.argc, s.argv, s.mem.take bufSize⟩] }
-          if dirty then { s0 with mem := List.replicate scratchSize 170 } else s0
-        else s
-      if s1.pt < k then ({ s1 with pt := s1.pt + 1 }, .yielded)
-      else (s1, if fails then .failed else .exited)
+  | some c => runBody tab s c.body
 
 /-! ## console_run -/
 
@@ -286,11 +297,11 @@ def loopW (tab : Table) : List Byte → St → St × PtState
   | [], s => ({ s with ring := [], fpt := 1 }, .waiting)
   | ch :: rest, s =>
     if ch = 10 ∨ s.bufp ≥ 79 then
-      let s1 := { findCommand tab (doTokenize { s with ring := rest }) with pt := 0, fpt := 2 }
+      let s1 := { findCommand tab (doTokenize { s with ring := rest, fpt := 1 }) with pt := 0, fpt := 2 }
       let r := runCmd tab s1
       if r.2 = .yielded ∨ r.2 = .waiting then r
       else loopW tab rest (finishCmd r.1 r.2)
-    else loopW tab rest (editChar { s with ring := rest } ch)
+    else loopW tab rest (editChar { s with ring := rest, fpt := 1 } ch)
 
 /-- `console_run` -/
 def consoleRun (tab : Table) (s : St) : St × PtState :=
@@ -307,7 +318,7 @@ def consoleRun (tab : Table) (s : St) : St × PtState :=
 
 /-- `do { s = console_run(c); } while (s == PT_YIELDED);` -/
 def runWhileYielded (tab : Table) : Nat → St → St
-  | 0, s => { s with fault := true }                -- fuel exhausted: reported, never silently accepted
+  | 0, s => { s with stuck := true }                -- fuel exhausted: reported, never silently accepted
   | n + 1, s =>
     let r := consoleRun tab s
     if r.2 = .yielded then runWhileYielded tab n r.1 else r.1
@@ -332,7 +343,7 @@ def putchar (s : St) (d : Byte) : St := { s with ring := (ringPut s.ring d).1, r
 /-- the scheduler with this one fibre, run until idle: a dispatch clears `runnable`; a YIELDED
     fibre is made runnable again (`update_current_state`) -/
 def schedLoop (tab : Table) : Nat → St → St
-  | 0, s => if s.runnable then { s with fault := true } else s
+  | 0, s => if s.runnable then { s with stuck := true } else s
   | n + 1, s =>
     if s.runnable then
       let r := consoleRun tab { s with runnable := false }
@@ -351,12 +362,12 @@ def evalLoop (str : List Byte) : Nat → St → St × Bool
       if (ringPut s.ring d).2 = true then evalLoop str n { s with ring := (ringPut s.ring d).1, evali := (s.evali + 1) % 65536 }
       else (s, false)
 
-/-- one resumption of `console_eval(pt, c, str)`; `pt` is the caller's (0 = start, 1 = after the yield) -/
+/-- one resumption of `console_eval(pt, c, str)`; `pt` is the caller's (0 = start, 1 = after the yield).
+    Both exits call `fibre_run(&c->fibre)`: after the loop (`PT_END`, exited) and when the ring is full
+    (`PT_YIELD`). -/
 def evalResume (str : List Byte) (pt : Nat) (s : St) : St × Nat × PtState :=
-  let s0 := if pt = 0 then { s with evali := 0 } else s
-  let r := evalLoop str (str.length + 1) s0
-  if r.2 then ({ r.1 with runnable := true }, 1, .exited)     -- fibre_run; PT_END
-  else ({ r.1 with runnable := true }, 1, .yielded)           -- fibre_run; PT_YIELD
+  ({ (evalLoop str (str.length + 1) (if pt = 0 then { s with evali := 0 } else s)).1 with runnable := true }, 1,
+   if (evalLoop str (str.length + 1) (if pt = 0 then { s with evali := 0 } else s)).2 = true then .exited else .yielded)
 
 /-- the caller of `console_eval`: resume it, let the console fibre run until idle, repeat until it
     has exited; `none` = it did not complete within `fuel` resumptions -/
@@ -373,5 +384,40 @@ def eval (tab : Table) (str : List Byte) (s : St) : St × Option Nat := evalDriv
 
 /-- `console_silent` -/
 def silent (s : St) : St := { s with argc := 1 }
+
+/-! ## histories -/
+
+/-- the console and the file-static command table -/
+structure World where
+  tab : Table
+  s : St
+
+/-- what the application (and its interrupt handlers) can do, in any order -/
+inductive Op where
+  | register (cmd : Cmd)
+  | process (d : Byte)                       -- console_process
+  | putchar (d : Byte)                       -- console_putchar
+  | sched                                    -- the scheduler runs until idle
+  | run                                      -- one direct call of console_run (polling loops)
+  | evalStep (str : List Byte) (pt : Nat)    -- one resumption of console_eval
+  | eval (str : List Byte)                   -- console_eval driven to completion
+  | silent
+  deriving Repr
+
+def boot : World := ⟨initTable, init⟩
+
+def step (w : World) : Op → World
+  | .register cmd => match register w.tab cmd with
+    | some (t, _) => { w with tab := t }
+    | none => w
+  | .process d => { w with s := process w.tab w.s d }
+  | .putchar d => { w with s := putchar w.s d }
+  | .sched => { w with s := sched w.tab w.s }
+  | .run => { w with s := (consoleRun w.tab w.s).1 }
+  | .evalStep str pt => { w with s := (evalResume str pt w.s).1 }
+  | .eval str => { w with s := (eval w.tab str w.s).1 }
+  | .silent => { w with s := silent w.s }
+
+def runOps (w : World) (ops : List Op) : World := ops.foldl step w
 
 end Librfn.Model.Console
